@@ -632,4 +632,4 @@ func vBreakLineOrphansWidows() (int, []string) {
 //@   ensures[not-a-block-box] bo.BlockContainerT.IsInstance(box_) && !bo.BlockT.IsInstance(box_) ==> result
 //@   ensures[flow-root] box.Style.GetDisplay().Has("flow-root") ==> result
 //@   ensures[column] box.IsColumn ==> result
-//@   ensures[plain-block] result ==> callresult(IsFloated, 1) || callresult(IsAbsolutelyPositioned, 1) || box.IsColumn || (bo.BlockContainerT.IsInstance(box_) && !bo.BlockT.IsInstance(box_)) || (bo.BlockT.IsInstance(box_) && box.Style.GetOverflow() != "visible") || box.Style.GetDisplay().Has("flow-root")
+//@   shows[plain-block] result ==> callresult(IsFloated, 1) || callresult(IsAbsolutelyPositioned, 1) || box.IsColumn || (bo.BlockContainerT.IsInstance(box_) && !bo.BlockT.IsInstance(box_)) || (bo.BlockT.IsInstance(box_) && box.Style.GetOverflow() != "visible") || box.Style.GetDisplay().Has("flow-root")
